@@ -1,31 +1,95 @@
 from common import Rng
 
 CONFIG = dict(
-    claimed=False, na_reason="proofs in progress (model, spec, correspondence and oracle already run; see checks/c08.py)",
+    claimed=True,
+    level_text="Kernel-checked Lean theorems over ALL accepted configurations (hold time 0 or 3..65535) and ALL well-formed timed "
+               "histories of the driver model (FSM of daemon/src/fsm.rs + the two timer slots per session task of "
+               "PeerSession::apply_outputs/run_select on a virtual clock): the master theorem that the C08 reference checker "
+               "(written from the property text) accepts every model run, and from it: negotiated hold = min(local, remote) and "
+               "keepalive = a third of it, armed with exactly those values; hold deadline = last KEEPALIVE/UPDATE/OPEN + negotiated "
+               "hold in every reachable state; re-armed by KEEPALIVE/UPDATE and by nothing else; a wait produces a hold expiry iff "
+               "nothing was received for the negotiated hold time; negotiated hold 0 => no timer armed, no firing, no hold-expiry "
+               "SessionDown, for ever.  The model is tied to the code by running the real PeerFsm (with the timer bookkeeping "
+               "transcribed from apply_outputs on a virtual clock) and the model on the same generated timed histories and diffing "
+               "every output, firing time and state, with the reference checker as oracle on the real observations; the "
+               "transcription itself is tied to the real PeerSession::apply_outputs by timer-probe cases (real tokio sleeps: "
+               "armed deadline and whether run_select's poll fires) judged by a behavioural oracle.",
+    level_note="Trusted: Lean kernel; axioms propext/Classical.choice/Quot.sound; hand-written model Rbgp/Fsm/{Model,Timed}.lean "
+               "(checked only by the correspondence streams); the virtual-clock timer loop in harness/daemon/fsm.rs run_case_c08 "
+               "(transcription of apply_outputs/run_select; its reading of SetHoldTimer/SetKeepaliveTimer is checked against the "
+               "real apply_outputs by the probe cases, the select_biased! firing order hold-before-keepalive is not).  "
+               "Well-formedness hypothesis wfHist: timer inputs come from the clock only and a directly injected parsed OPEN does "
+               "not carry hold time 1 or 2 (what parse_message guarantees; raw OPENs go through the real parser) - both are "
+               "necessary, Lean counter-examples wf_needed_*.  Fixed defect S15 (commit 6e5d82a in /repo: a negotiated hold time "
+               "of zero still armed SetHoldTimer(0)=immediate expiry and never cancelled the 240 s OpenSent timer); model and "
+               "proofs are about the repaired code.  Modelled, not verified: wall-clock accuracy of tokio sleeps, "
+               "FuturesUnordered polling order.",
     lean_modules=["Rbgp.Fsm.TimedProps"],
     theorems=[
         "Rbgp.Fsm.TimedProps.check_run_ok",
+        "Rbgp.Fsm.TimedProps.Reach.step",
+        "Rbgp.Fsm.TimedProps.open_accept",
         "Rbgp.Fsm.TimedProps.negotiated_min",
         "Rbgp.Fsm.TimedProps.keepalive_third",
+        "Rbgp.Fsm.TimedProps.keepalive_third_invariant",
         "Rbgp.Fsm.TimedProps.hold_deadline_invariant",
+        "Rbgp.Fsm.TimedProps.lastRx_on_open",
+        "Rbgp.Fsm.TimedProps.record_ev",
+        "Rbgp.Fsm.TimedProps.record_wait",
+        "Rbgp.Fsm.TimedProps.ka_update_rearm",
+        "Rbgp.Fsm.TimedProps.only_ka_update_rearm",
+        "Rbgp.Fsm.TimedProps.expiry_iff_silence",
+        "Rbgp.Fsm.TimedProps.no_expiry_without_timer",
         "Rbgp.Fsm.TimedProps.zero_disables",
+        "Rbgp.Fsm.TimedProps.timed_at_most_one_confirmed",
+        "Rbgp.Fsm.TimedProps.probe_ok",
+        "Rbgp.Fsm.TimedProps.wf_needed_hold1",
+        "Rbgp.Fsm.TimedProps.wf_needed_holdTimer",
+        "Rbgp.Fsm.TimedProps.wf_needed_kaTimer",
     ],
-    harness=dict(kind="daemon", test="fsm::verif_fsm::verif_main"),
+    # one entry point for both kinds of case line: (case ..) -> FSM harness run_case_c08 (re-included),
+    # (probe ..) -> real PeerSession::apply_outputs
+    harness=dict(kind="daemon", test="event::verif_event::c08::verif_main"),
     profiles=["debug"],
     n_quick=3000, n_thorough=150000, shards=12,
-    nontrivial_re=r"\(fired \(",
-    rule="timed histories (message arrivals, sends, passage of virtual time) through OpenSent/OpenConfirm/Established on both "
-         "roles; local and remote hold times from {0,3,9,30,90,240,65535}; waits chosen around the keepalive and hold "
-         "deadlines (deadline-1, deadline, deadline+1); non-trivial = at least one timer fired; distinct = distinct case line",
-    expect_tokens=["hold-expired", "(fired (", "ka ", "established"],
+    nontrivial_re=r"\(fired \(|probe-obs",
+    rule="(a) timed histories (message arrivals, sends, passage of virtual time) through OpenSent/OpenConfirm/Established on both "
+         "roles; local and remote hold times from {0,3,4,9,30,90,240,65535}; OPENs raw (through the real parser, incl. hold 1/2 "
+         "and bad identifiers) and parsed; waits chosen around the keepalive and hold deadlines (deadline-1, deadline, "
+         "deadline+1), around the 240 s OpenSent timer and long ones; (b) about one case in twelve is a timer probe: a list of "
+         "0..5 Set*Timer/other outputs (values 0,1,3,30,90,240,65535) applied by the real PeerSession::apply_outputs; "
+         "non-trivial = at least one timer fired or a probe observation; distinct = distinct case line",
+    expect_tokens=["hold-expired", "(fired (", "ka ", "established", "probe-obs", "far", "parse-reject", "(6 7)",
+                   "stop-active-connect"],
     trusted_base=["model Rbgp/Fsm/Timed.lean of the timer bookkeeping in PeerSession::apply_outputs / run_select",
                   "harness/daemon/fsm.rs run_case_c08 keeps the two timer slots per task on a virtual clock (transcribed "
-                  "from apply_outputs); that tokio::time::sleep(n) completes n seconds later is assumed"],
-    modelled_not_verified=["wall-clock accuracy of tokio sleeps", "FuturesUnordered polling order beyond hold-before-keepalive"],
-    assumptions=["timers fire exactly at their deadline on a virtual clock in whole seconds"],
+                  "from apply_outputs; the Set*Timer reading is cross-checked on the real apply_outputs by the probe cases); "
+                  "that tokio::time::sleep(n) completes n seconds later is assumed",
+                  "harness/daemon/c08.rs: helpers copied from event/mod.rs `mod tests` (make_global, default_peer_params, "
+                  "loopback_pair); 30 ms of real time decide fires/quiet"],
+    modelled_not_verified=["wall-clock accuracy of tokio sleeps", "FuturesUnordered polling order beyond hold-before-keepalive",
+                           "the second SetKeepaliveTimer site (flush of pending UPDATEs feeding Input::UpdateSent) is covered as "
+                           "the FSM output only"],
+    assumptions=["timers fire exactly at their deadline on a virtual clock in whole seconds",
+                 "wfHist: timer-expiry inputs are produced by the clock only; parsed OPENs injected directly do not carry hold "
+                 "time 1 or 2 (parse_message rejects them)"],
 )
 
-HOLDS = [0, 0, 3, 9, 30, 90, 240, 65535]
+HOLDS = [0, 0, 3, 4, 9, 30, 90, 240, 65535]
+PROBE_VALS = [0, 0, 1, 3, 30, 90, 240, 65535]
+
+
+def gen_probe(r):
+    outs = []
+    for _ in range(r.below(6)):
+        k = r.weighted([("set-hold", 5), ("set-ka", 4), ("send-keepalive", 1), ("state", 1), ("stop-active-connect", 1)])
+        if k in ("set-hold", "set-ka"):
+            outs.append("(%s %d)" % (k, r.pick(PROBE_VALS)))
+        elif k == "state":
+            outs.append("(state %s)" % r.pick(["opensent", "openconfirm", "established"]))
+        else:
+            outs.append(k)
+    return "(probe%s)" % "".join(" " + o for o in outs)
 
 
 def gen_case(r):
@@ -36,19 +100,40 @@ def gen_case(r):
     remote_rid = 33686018
     evs = []
     roles = ["A"] if r.chance(2, 3) else ["A", "P"]
+
     def waits():
         cands = [0, 1, 2, 5]
         if neg:
-            cands += [neg // 3 - 1, neg // 3, neg // 3 + 1, neg - 1, neg, neg + 1, 2 * neg, neg - neg // 3]
+            cands += [neg // 3 - 1, neg // 3, neg // 3 + 1, neg - 1, neg, neg + 1, 2 * neg, neg - neg // 3,
+                      neg - 2 * (neg // 3), 3 * (neg // 3)]
         cands += [239, 240, 241, 300]
+        if r.chance(1, 20):
+            cands = [1000, 65534, 65535, 65536, 70000]
         return max(0, r.pick(cands))
+
+    def open_ev(role):
+        # mostly the acceptable raw OPEN of this case; sometimes another hold time, a parsed OPEN, or an OPEN the
+        # wire parser / the FSM refuses (hold 1/2, bad identifier, unexpected AS)
+        k = r.weighted([("raw", 14), ("parsed", 3), ("otherhold", 2), ("badhold", 1), ("badrid", 1), ("badas", 1)])
+        if k == "raw":
+            return "(%s (open 65002 %d %d))" % (role, remote_hold, remote_rid)
+        if k == "parsed":
+            return "(%s (open-parsed 65002 %d %d))" % (role, remote_hold, remote_rid)
+        if k == "otherhold":
+            return "(%s (open 65002 %d %d))" % (role, r.pick(HOLDS), remote_rid)
+        if k == "badhold":
+            return "(%s (open 65002 %d %d))" % (role, r.pick([1, 2]), remote_rid)
+        if k == "badrid":
+            return "(%s (open 65002 %d %d))" % (role, remote_hold, r.pick([0, 4294967295, 3758096385]))
+        return "(%s (open 65003 %d %d))" % (role, remote_hold, remote_rid)
+
     for role in roles:
         evs.append("(%s (connected f))" % role)
         if r.chance(1, 6):
             evs.append("(A (wait %d))" % waits())
     for role in roles:
         if r.chance(9, 10):
-            evs.append("(%s (open 65002 %d %d))" % (role, remote_hold, remote_rid))
+            evs.append(open_ev(role))
             if r.chance(1, 3):
                 evs.append("(A (wait %d))" % waits())
             if r.chance(9, 10):
@@ -63,7 +148,7 @@ def gen_case(r):
         elif k == "rr":
             evs.append("(%s (route-refresh 1))" % role)
         elif k == "open":
-            evs.append("(%s (open 65002 %d %d))" % (role, remote_hold, remote_rid))
+            evs.append(open_ev(role))
         elif k == "notification":
             evs.append("(%s (notification 6 2))" % role)
         elif k == "connected":
@@ -75,4 +160,4 @@ def gen_case(r):
 
 def gen(seed, n, tier):
     r = Rng(seed * 1000003 + 8)
-    return [gen_case(r) for _ in range(n)]
+    return [gen_probe(r) if r.chance(1, 12) else gen_case(r) for _ in range(n)]
